@@ -17,7 +17,7 @@ RULE = ("BFS from the initial state over events {send_command(cs) on master 5/6/
         "{0,4,5,127,0x80,0x84,0xFF,75}, raw NMT frames addressed to 7/5/0, node guarding on/off}, de-duplicated on the five state views; after "
         "each step the bus frames and every compared view are checked against the CiA 301 table; all 256 heartbeat bytes are "
         "probed in every new state; waits: all schedules of waiter x receiver (0..2 heartbeats) with <= P preemptions. "
-        "non-trivial = distinct states beyond the initial one plus schedules with >= 1 preemption")
+        "non-trivial = distinct states beyond the initial one plus schedules with >= 1 preemption; two threads waiting for one node's heartbeat / boot-up x receiver delivering [5], [0], [0,5] with <= 2 preemptions")
 ASSUMPTIONS = [
     "the per-node master view after a broadcast sent by the same network is not compared (own frames are not looped back)",
     "the broadcast master object (Network.nmt) is a command source only; its view is not demanded to follow NMT commands of other masters",
